@@ -16,7 +16,6 @@ import (
 	"fmt"
 	"os"
 	"os/exec"
-	"regexp"
 	"runtime"
 	"strconv"
 	"strings"
@@ -54,8 +53,6 @@ type runner struct {
 	mu          sync.Mutex
 }
 
-var pdfcpuFrame = regexp.MustCompile(`^(github\.com/pdfcpu/pdfcpu/[^\s(]+)`)
-
 // pdfcpuFrames extracts the pdfcpu function names of the first goroutine trace in a Go crash dump, innermost first,
 // with consecutive repetitions collapsed.
 func pdfcpuFrames(dump string) []string {
@@ -72,11 +69,14 @@ func pdfcpuFrames(dump string) []string {
 		if !started {
 			continue
 		}
-		if m := pdfcpuFrame.FindStringSubmatch(strings.TrimSpace(ln)); m != nil {
-			fn := strings.TrimPrefix(m[1], "github.com/pdfcpu/pdfcpu/pkg/")
-			if i := strings.Index(fn, "("); i > 0 && !strings.Contains(fn[:i], ".") {
+		if t := strings.TrimSpace(ln); strings.HasPrefix(t, "github.com/pdfcpu/pdfcpu/") {
+			// "pkg/path.(*Type).Method(0x..., ...)" or "pkg/path.Func(...)": cut the argument list
+			fn := t
+			if i := strings.LastIndex(fn, "("); i > 0 {
 				fn = fn[:i]
 			}
+			fn = strings.TrimPrefix(fn, "github.com/pdfcpu/pdfcpu/pkg/")
+			fn = strings.NewReplacer("(*", "", ")", "").Replace(fn)
 			if len(out) == 0 || out[len(out)-1] != fn {
 				out = append(out, fn)
 			}
@@ -204,6 +204,11 @@ func (r *runner) worker(w int) {
 			return
 		}
 		if !inflight {
+			if timedOut && curIdx >= 0 {
+				// the wall clock backstop fired just when the operation returned: nothing is lost, go on after it
+				idx, fromop = curIdx, curOp+1
+				continue
+			}
 			// died between operations (start-up failure): harness problem
 			h.Die("child %s died outside an operation (case %d): %s", r.sub, curIdx, lastLines(stderr.String(), 30))
 		}
